@@ -1,4 +1,5 @@
 import Siot.Lemmas.Feed
+import Siot.Lemmas.FeedTies
 import Siot.Gen.Manager
 /-
 C08 — A client is told of every foreign change to its subtree, never its own.
@@ -103,14 +104,18 @@ theorem c08_order (isEven : Nat → Bool) (cid : Bytes) (h1 h2 : List (St × Wri
       simp only [List.flatMap_cons, List.length_cons, List.replicate_succ, ih]
       split <;> rfl
 
-/-- **C08 (the fold holds what the store holds) — partial.** Start from any rows of one node (one per
-identity) that the client was constructed from, and let any batches be written to the node and be told
-to the client. If per identity later deliveries carry later-or-equal timestamps (`Mono`) and two
-DIFFERENT points of one identity never share a timestamp (`Admissible`), then folding the batches, point
-by point, last one wins, yields exactly the rows the store holds.
-Partial: a tie between two different points of one identity is excluded here (the property allows
-non-decreasing times); ties are exercised by the correspondence run only. -/
-theorem c08_fold_holds_store_partial (rows0 : List Point) (hu : IdUnique rows0) (bs : List (List Point))
+/-- **C08 (the fold holds what the store holds).** Start from any rows of one node (one per identity)
+that the client was constructed from, and let any batches be written to the node and be told to the client.
+If per identity later deliveries carry later-or-EQUAL time stamps (`Mono`: non-decreasing, ties between
+different points allowed), then folding the batches, point by point, last one wins, yields for every
+identity exactly the row the store holds. -/
+theorem c08_fold_holds_store (rows0 : List Point) (hu : IdUnique rows0) (bs : List (List Point))
+    (hm : Mono (rows0 ++ delivered bs)) (x : Point) :
+    lk (rowsAfter rows0 bs) x = lk (foldView rows0 bs.flatten) x :=
+  fold_step_general bs rows0 rows0 hu hu (fun _ => rfl) (mono_below _ _ hm) (mono_tail _ _ hm) x
+
+/-- the same as sets of rows, when moreover two different points of one identity never share a time stamp -/
+theorem c08_fold_rows_equal (rows0 : List Point) (hu : IdUnique rows0) (bs : List (List Point))
     (hm : Mono (rows0 ++ delivered bs)) (ha : Admissible (rows0 ++ delivered bs)) (p : Point) :
     p ∈ rowsAfter rows0 bs ↔ p ∈ foldView rows0 bs.flatten := by
   have hS := rowsAfter_lww bs rows0 rows0 (idUnique_lww_self rows0 hu)
